@@ -88,6 +88,9 @@ def cases(tier, seed):
     # images, each WHERE ITS SPHERE IS (single spheres are point-symmetric
     # about their centre, a cluster is not: only the cluster can show an
     # image that is turned about the optical axis)
+    for i in range(len(WEAK_NEAR)):
+        out.append({"id": "weak-coupling-near-plane#%d" % i,
+                    "kind": "weaknear", "i": i})
     for i in range(len(WEAK_LENS)):
         out.append({"id": "weak-coupling-lens#%d" % i, "kind": "weaklens",
                     "i": i, "_timeout": 900})
@@ -142,6 +145,49 @@ WEAK = [(0.1, 1.45, (1.5, 0.4, 2.0)), (0.1, 1.45, (3.0, 0.8, 4.0)),
         # beyond the 70 cluster-centred orders the solver is compiled for
         # (k * extent / 2 > ~53): refused, or within the same bound
         (0.025, 1.45, (6.0, 2.0, 8.0)), (0.025, 1.45, (12.0, 0.0, 0.0))]
+# a cluster that is wider than it is far from the detector plane: the plane
+# cuts the smallest sphere about the centroid that holds the cluster, inside
+# which the cluster-centred expansion does not converge (refused, or right)
+WEAK_NEAR = [(0.05, 1.45, (5.0, 0.0, 0.0), 2.0),
+             (0.05, 1.45, (4.0, 3.0, 0.0), 1.5),
+             (0.05, 1.45, (5.0, 0.0, 0.0), 3.4)]
+
+
+def _run_weaknear(case, ck):
+    from holopy.scattering import (Multisphere, Mie, Sphere, Spheres,
+                                   calc_field)
+    r, n, sep, zc = WEAK_NEAR[case["i"]]
+    sep = np.array(sep)
+    c0 = np.array([3.0, 3.0, zc])
+    with warnings.catch_warnings():
+        warnings.simplefilter("ignore")
+        s = Spheres([Sphere(n=n, r=r, center=tuple(c0 - sep / 2)),
+                     Sphere(n=n, r=r, center=tuple(c0 + sep / 2))])
+    det = H.det_grid((7, 7), 1.0)
+    try:
+        a = calc_field(det, s, H.NMED, H.WL, (1, 0), theory=Multisphere(
+            compute_escat_radial=True, **TIGHT)).values
+    except Exception as e:
+        if type(e).__name__ == "InvalidScatterer":
+            ck.metric("cluster-refused-detector-too-close", 1)
+            ck.trans += 1
+            return "refused"
+        raise
+    with warnings.catch_warnings():
+        warnings.simplefilter("ignore")
+        b = calc_field(det, s, H.NMED, H.WL, (1, 0),
+                       theory=Mie(True, True)).values
+    ck.trans += 2
+    e = float(np.abs(a - b).max() / np.abs(b).max())
+    x = H.K * r
+    bound = 0.25 * x ** 3 / (H.K * float(np.linalg.norm(sep)))
+    ck.metric("weak-coupling-near", e)
+    ck.true("weak-coupling-limit", e <= max(bound, 1e-3), "two small "
+            "spheres %r apart, %g above a 6 x 6 detector plane: the cluster "
+            "field differs from the superposition of the single-sphere "
+            "fields by %.2e of its peak (coupling bound %.1e)" %
+            (sep.tolist(), zc, e, bound))
+    return digest(fp_values(a))
 
 
 WEAK_LENS = [((1.0, 0.5, 0.3), 5.0, (1.0, 0.0)),
@@ -673,7 +719,7 @@ def run_case(case):
     _USE_ALIGNED[0] = bool(case.get("aligned"))
     _USE_SIZES[0] = bool(case.get("sizes"))
     fp = {"perm": _run_perm, "bigperm": _run_bigperm, "rot": _run_rot,
-          "rule": _run_rule, "weak": _run_weak, "weaklens": _run_weaklens,
+          "rule": _run_rule, "weak": _run_weak, "weaklens": _run_weaklens, "weaknear": _run_weaknear,
           "xsecrot": _run_xsecrot,
           "displaced": _run_displaced}[case["kind"]](case, ck)
     return ck.result(fp=fp)
